@@ -45,6 +45,16 @@ func condvarRules(c *Ctx, rule string) {
 				}
 			}
 		}
+		// the condition's lock may be a mutex the struct owns itself: rwCond = sync.NewCond(&p.mu) makes p.mu and
+		// p.rwCond.L the same lock
+		aliasM := condLockAliases(p, rel, condF)
+		isCondLock := func(e LockEnt) bool {
+			n := len(e.Path.Chain)
+			if n >= 2 && e.Path.Chain[n-1] == lockL && e.Path.Chain[n-2] == condF {
+				return true
+			}
+			return n >= 1 && aliasM[e.Path.Chain[n-1]]
+		}
 		preds := map[*types.Var]bool{}
 		for _, n := range cp.preds {
 			if fv := p.Field(rel, cp.typ, n); fv != nil {
@@ -107,7 +117,7 @@ func condvarRules(c *Ctx, rule string) {
 				held := ls.MustHeld(i)
 				okL := false
 				for _, e := range held {
-					if n := len(e.Path.Chain); n >= 2 && e.Path.Chain[n-1] == lockL && e.Path.Chain[n-2] == condF {
+					if isCondLock(e) {
 						okL = true
 					}
 				}
@@ -158,7 +168,7 @@ func condvarRules(c *Ctx, rule string) {
 				held := ls.MustHeld(wr.at)
 				okL := false
 				for _, e := range held {
-					if n := len(e.Path.Chain); n >= 2 && e.Path.Chain[n-1] == lockL && e.Path.Chain[n-2] == condF && e.Excl {
+					if isCondLock(e) && e.Excl {
 						okL = true
 					}
 				}
